@@ -291,33 +291,15 @@ func init() {
 		}
 		return &TupleVal{E: []Value{x.str(h), x.str(p), ev}}
 	})
-	RegisterIntrinsic("time.Now", func(x *Exec, s *State, c *CallCtx) Value {
-		// wall=0 (no monotonic reading), ext = seconds since year 1, loc=nil. The instant is a fixed
-		// constant unless the harness asked for a symbolic clock (zzvrf.SymbolicClock), in which
-		// case every reading is a fresh non-decreasing symbolic instant.
-		t := x.zero(c.RT).(*StructVal)
-		n := &StructVal{F: append([]Value(nil), t.F...)}
-		if x.SymClock {
-			n.F[1] = x.clockRead()
-		} else {
-			n.F[1] = x.tb.Int64(62135596800 + 1700000000)
-		}
-		return n
-	})
-	RegisterIntrinsic(VrfPkg+".SymbolicClock", func(x *Exec, s *State, c *CallCtx) Value {
-		x.SymClock = true
-		return nil
-	})
 	RegisterIntrinsic("os.Getpid", func(x *Exec, s *State, c *CallCtx) Value { return x.tb.Int64(4242) })
-	RegisterIntrinsic("time.Sleep", func(x *Exec, s *State, c *CallCtx) Value { return nil })
 }
 
-// clockRead returns a fresh symbolic clock reading (seconds since year 1, as time.Time.ext holds
-// when wall has no monotonic bit), non-decreasing across reads and inside a sane range.
+// clockRead returns a fresh symbolic clock reading (nanoseconds since the Unix epoch),
+// non-decreasing across reads and inside a sane range.
 func (x *Exec) clockRead() *Term {
 	tb := x.tb
 	v := tb.Var(x.freshName("clock"), 64)
-	lo, hi := tb.Int64(62135596800), tb.Int64(62135596800+4102444800) // 1970 .. 2100
+	lo, hi := tb.Int64(1000000000*1000000000), tb.Int64(4000000000*1000000000) // ns: 2001 .. 2096
 	x.Assumptions = append(x.Assumptions, tb.SLe(lo, v), tb.SLe(v, hi))
 	if x.lastClock != nil {
 		x.Assumptions = append(x.Assumptions, tb.SLe(x.lastClock, v))
